@@ -5,5 +5,8 @@ import "verif/common"
 func init() {
 	props["C05"] = common.CommentsProperty(common.CmImpl{V2: true, Load: func(prog *common.Program) (*common.USnap, error) {
 		return loadV1(prog, []string{prog.Pkgs[0].Path})
+	}, LoadLater: func(prog *common.Program, first, then string) (*common.USnap, error) {
+		snap, _, _, err := loadHistoryV2(prog, []string{first}, [][]string{{then}})
+		return snap, err
 	}})
 }
